@@ -2,6 +2,9 @@
 """Translator: regenerates lean/GdVerif/Gen/*.lean from the repository's current sources on every run.
 
   Gen/AllocSites.lean  — every allocation-size expression in crates/lib/src (C13)
+  Gen/Games.lean       — the definitions table and the game modules (C14, C20)
+  Gen/Views.lean       — the accessor bodies of every CommonResponse / CommonPlayer impl (C15)
+  Gen/Consts.lean      — constants and small tables: request bytes, packet kinds, buffer sizes, ports, field names … (Cnn_consts)
 
 Each generated file is only rewritten when its content changes (so that lake does not rebuild needlessly)."""
 import os, re, sys, zlib
@@ -561,6 +564,1049 @@ def gen_games():
     return defs, mods
 
 
+# --------------------------------------------------------------------------- constants and small tables (Gen/Consts.lean)
+
+class ConstError(Exception):
+    pass
+
+
+_SRC_CACHE = {}
+
+
+def csrc(rel):
+    """a source file of crates/lib/src without its tests and without `//` comments"""
+    if rel not in _SRC_CACHE:
+        fp = os.path.join(SRC, rel)
+        if not os.path.exists(fp):
+            raise ConstError(f"file {rel} does not exist")
+        _SRC_CACHE[rel] = re.sub(r"//[^\n]*", "", strip_tests(open(fp).read()))
+    return _SRC_CACHE[rel]
+
+
+def need(pattern, text, what, flags=re.S):
+    m = re.search(pattern, text, flags)
+    if not m:
+        raise ConstError(f"{what}: not found in the expected shape /{pattern}/")
+    return m
+
+
+def need_all(pattern, text, what, count=None, at_least=1, flags=re.S):
+    ms = re.findall(pattern, text, flags)
+    if (count is not None and len(ms) != count) or len(ms) < at_least:
+        raise ConstError(f"{what}: expected {count if count is not None else 'at least ' + str(at_least)} "
+                         f"occurrence(s) of /{pattern}/, found {len(ms)}")
+    return ms
+
+
+def block(text, header, what):
+    """the `{ … }` group that follows the first match of `header`"""
+    m = need(header, text, what)
+    i = text.find("{", m.end() - 1 if text[m.end() - 1] == "{" else m.end())
+    if i < 0:
+        raise ConstError(f"{what}: no block after /{header}/")
+    return balanced(text, i, "{", "}")
+
+
+def rust_int(s, what="number"):
+    """value of a Rust integer expression of the few shapes the library uses"""
+    s = s.strip()
+    if "*" in s:
+        v = 1
+        for f in s.split("*"):
+            v *= rust_int(f, what)
+        return v
+    m = re.fullmatch(r"\(?\s*(-?[0-9][0-9_]*)i8\s+as\s+u8\s*\)?", s)
+    if m:
+        return int(m.group(1).replace("_", "")) % 256
+    m = re.fullmatch(r"b'(\\.|[^\\'])'", s)
+    if m:
+        return rust_str(m.group(1), what).encode()[0]
+    m = re.fullmatch(r"'(\\x[0-9a-fA-F]{2}|\\.|[^\\'])'", s)
+    if m:
+        return ord(rust_str(m.group(1), what))
+    if s in ("u32::MAX", "u16::MAX", "u8::MAX", "u64::MAX"):
+        return 2 ** int(s[1:s.index(":")]) - 1
+    m = re.fullmatch(r"(-?)(0x[0-9a-fA-F_]+|[0-9][0-9_]*)(?:u8|u16|u32|u64|usize|i8|i16|i32|i64|isize)?", s)
+    if not m:
+        raise ConstError(f"{what}: `{s}` is not an integer literal the translator understands")
+    v = int(m.group(2).replace("_", ""), 0)
+    return -v if m.group(1) else v
+
+
+def rust_str(body, what="string"):
+    """the text of a Rust (byte) string literal, given what stands between the quotes"""
+    out, i = [], 0
+    while i < len(body):
+        c = body[i]
+        if c != "\\":
+            out.append(c)
+            i += 1
+            continue
+        e = body[i + 1] if i + 1 < len(body) else ""
+        if e == "x":
+            out.append(chr(int(body[i + 2:i + 4], 16)))
+            i += 4
+        elif e in "0nrt\\\"'":
+            out.append({"0": "\0", "n": "\n", "r": "\r", "t": "\t", "\\": "\\", '"': '"', "'": "'"}[e])
+            i += 2
+        else:
+            raise ConstError(f"{what}: escape `\\{e}` not understood")
+    return "".join(out)
+
+
+STR = r'"((?:[^"\\]|\\.)*)"'
+
+
+def rust_bytes(list_body, what="byte list"):
+    """`0xFE, 0xFD, 0x00` -> [254, 253, 0]"""
+    parts = [x for x in (y.strip() for y in list_body.split(",")) if x]
+    vals = [rust_int(x, what) for x in parts]
+    for v in vals:
+        if not 0 <= v < 256:
+            raise ConstError(f"{what}: {v} is not a byte")
+    return vals
+
+
+def str_bytes(s):
+    return list(s.encode("utf-8"))
+
+
+def lean_val(v):
+    if isinstance(v, bool):
+        return "true" if v else "false"
+    if isinstance(v, int):
+        return str(v) if v >= 0 else f"({v})"
+    if isinstance(v, str):
+        out = ['"']
+        for ch in v:
+            if ch == "\\":
+                out.append("\\\\")
+            elif ch == '"':
+                out.append('\\"')
+            elif ch == "\n":
+                out.append("\\n")
+            elif ord(ch) < 32 or ord(ch) == 127:
+                out.append("\\x%02x" % ord(ch))
+            else:
+                out.append(ch)
+        return "".join(out) + '"'
+    if isinstance(v, tuple):
+        return "(" + ", ".join(lean_val(x) for x in v) + ")"
+    if isinstance(v, list):
+        return "[" + ", ".join(lean_val(x) for x in v) + "]"
+    raise ConstError(f"cannot render {v!r}")
+
+
+CONST_ITEMS = []
+
+
+def const(name, ty, rel, what):
+    """register an extractor: `fn(src) -> value` for the item `what` of file `rel`, written as `def name : ty`"""
+    def deco(fn):
+        CONST_ITEMS.append((name, ty, rel, what, fn))
+        return fn
+    return deco
+
+
+BYTES = "List UInt8"
+F_VT = "protocols/valve/types.rs"
+F_VP = "protocols/valve/protocol.rs"
+F_G1 = "protocols/gamespy/protocols/one/protocol.rs"
+F_G2 = "protocols/gamespy/protocols/two/protocol.rs"
+F_G3 = "protocols/gamespy/protocols/three/protocol.rs"
+F_GC = "protocols/gamespy/common.rs"
+F_QC = "protocols/quake/client.rs"
+F_UP = "protocols/unreal2/protocol.rs"
+F_UT = "protocols/unreal2/types.rs"
+F_MS = "services/valve_master_server/service.rs"
+F_MT = "services/valve_master_server/types.rs"
+F_PT = "protocols/types.rs"
+
+
+def const_decl(src, name, ty="usize", what=None):
+    m = need(r"\b(?:const|static)\s+%s\s*:\s*%s\s*=\s*([^;]+);" % (name, re.escape(ty)), src, what or f"const {name}")
+    return m.group(1)
+
+
+def enum_codes(src, enum, what):
+    body = block(src, r"\benum\s+%s\s*\{" % enum, what)
+    return [(n, rust_int(v, what)) for n, v in need_all(r"\b([A-Z]\w*)\s*=\s*(0x[0-9A-Fa-f]+|[0-9]+)\s*,", body, what)]
+
+
+def match_arms_to(src_block, target, what, at_least=1):
+    """`68 => Server::Dedicated,` / `109 | 111 => Self::Mac,` -> [(68, "Dedicated"), (109, "Mac"), (111, "Mac")], ascending"""
+    out = []
+    for codes, variant in need_all(r"((?:[0-9]+\s*\|\s*)*[0-9]+)\s*=>\s*(?:Ok\()?%s(\w+)" % target, src_block, what, at_least=at_least):
+        for c in codes.split("|"):
+            out.append((rust_int(c, what), variant))
+    if len({c for c, _ in out}) != len(out):
+        raise ConstError(f"{what}: a code occurs in two arms")
+    return sorted(out)  # the arms are disjoint literals: their order carries no meaning
+
+
+# ---- Valve
+
+@const("valve_request_kinds", "List (String × Nat)", F_VT, "enum Request (discriminants)")
+def _(s):
+    r = enum_codes(s, "Request", "enum Request")
+    if [n for n, _ in r] != ["Info", "Players", "Rules"]:
+        raise ConstError(f"enum Request: variants are {[n for n, _ in r]}, expected Info, Players, Rules")
+    return r
+
+
+@const("valve_info_payload", BYTES, F_VT, "Request::get_default_payload, arm Self::Info")
+def _(s):
+    b = block(s, r"fn\s+get_default_payload\b", "Request::get_default_payload")
+    return str_bytes(rust_str(need(r"Self::Info\s*=>\s*String::from\(%s\)\.into_bytes\(\)" % STR, b, "Info payload").group(1)))
+
+
+@const("valve_default_payload", BYTES, F_VT, "Request::get_default_payload, arm `_`")
+def _(s):
+    b = block(s, r"fn\s+get_default_payload\b", "Request::get_default_payload")
+    return rust_bytes(need(r"_\s*=>\s*vec!\[([^\]]*)\]", b, "default payload").group(1))
+
+
+@const("valve_packet_header", BYTES, F_VT, "Packet::new header (u32, written by to_bytes with to_be_bytes)")
+def _(s):
+    imp = block(s, r"\bimpl\s+Packet\s*\{", "impl Packet")
+    v = rust_int(need(r"header:\s*([A-Za-z0-9_:]+)\s*,", block(imp, r"fn\s+new\s*\(", "Packet::new"), "Packet::new header").group(1))
+    need(r"self\.header\.to_be_bytes\(\)", block(imp, r"fn\s+to_bytes\b", "Packet::to_bytes"), "Packet::to_bytes: header.to_be_bytes()")
+    return list(v.to_bytes(4, "big"))
+
+
+def _gldsrc(s, ty):
+    imp = block(s, r"\bimpl\s+%s\s*\{" % ty, f"impl {ty}")
+    f = block(imp, r"fn\s+from_gldsrc\b", f"{ty}::from_gldsrc")
+    need(r"match\s+value\.to_ascii_lowercase\(\)", f, f"{ty}::from_gldsrc: match value.to_ascii_lowercase()")
+    return match_arms_to(f, "Self::", f"{ty}::from_gldsrc arms", at_least=2)
+
+
+@const("valve_server_from_gldsrc", "List (Nat × String)", F_VT, "Server::from_gldsrc (byte after to_ascii_lowercase ↦ variant)")
+def _(s):
+    return _gldsrc(s, "Server")
+
+
+@const("valve_environment_from_gldsrc", "List (Nat × String)", F_VT, "Environment::from_gldsrc (byte after to_ascii_lowercase ↦ variant)")
+def _(s):
+    return _gldsrc(s, "Environment")
+
+
+@const("valve_gather_default", "List (String × String)", F_VT, "GatheringSettings::default")
+def _(s):
+    f = block(block(s, r"\bimpl\s+GatheringSettings\s*\{", "impl GatheringSettings"), r"fn\s+default\b", "GatheringSettings::default")
+    return [("players", need(r"players:\s*GatherToggle::(\w+)", f, "players").group(1)),
+            ("rules", need(r"rules:\s*GatherToggle::(\w+)", f, "rules").group(1)),
+            ("check_app_id", need(r"check_app_id:\s*(true|false)", f, "check_app_id").group(1))]
+
+
+@const("valve_packet_size", "Nat", F_VP, "static PACKET_SIZE")
+def _(s):
+    return rust_int(const_decl(s, "PACKET_SIZE"))
+
+
+@const("valve_max_decompressed_size", "Nat", F_VP, "const MAX_DECOMPRESSED_SIZE")
+def _(s):
+    return rust_int(const_decl(s, "MAX_DECOMPRESSED_SIZE"))
+
+
+@const("valve_split_header", "Nat", F_VP, "ValveProtocol::receive: `if header == 0xFE`")
+def _(s):
+    f = block(s, r"fn\s+receive\s*\(", "ValveProtocol::receive")
+    return rust_int(need(r"if\s+header\s*==\s*(0x[0-9A-Fa-f]+|[0-9]+)\s*\{", f, "split header test").group(1))
+
+
+@const("valve_challenge_kind", "Nat", F_VP, "get_request_data_impl: `while packet.kind == 0x41`")
+def _(s):
+    f = block(s, r"fn\s+get_request_data_impl\b", "get_request_data_impl")
+    return rust_int(need(r"while\s+packet\.kind\s*==\s*(0x[0-9A-Fa-f]+|[0-9]+)\s*\{", f, "challenge kind").group(1))
+
+
+def _css(s):
+    f = block(block(s, r"\bimpl\s+SplitPacket\s*\{", "impl SplitPacket"), r"fn\s+new\s*\(", "SplitPacket::new")
+    m = need(r"let\s+size\s*=\s*match\s+protocol\s*==\s*([0-9]+)\s*&&\s*\(\*engine\s*==\s*Engine::new\(([0-9_]+)\)\)\s*\{(.*?)\}", f,
+             "SplitPacket::new: the `size` special case")
+    t = need(r"true\s*=>\s*([0-9_]+)\s*,", m.group(3), "SplitPacket::new: size when the field is absent")
+    need(r"false\s*=>\s*buffer\.read\(\)\?", m.group(3), "SplitPacket::new: size read otherwise")
+    return rust_int(m.group(1)), rust_int(m.group(2)), rust_int(t.group(1))
+
+
+@const("valve_css_protocol", "Nat", F_VP, "SplitPacket::new: protocol of the split header without size field")
+def _(s):
+    return _css(s)[0]
+
+
+@const("valve_css_appid", "Nat", F_VP, "SplitPacket::new: app id of the split header without size field")
+def _(s):
+    return _css(s)[1]
+
+
+@const("valve_css_split_size", "Nat", F_VP, "SplitPacket::new: size assumed when the field is absent")
+def _(s):
+    return _css(s)[2]
+
+
+@const("valve_compressed_bit", "Nat", F_VP, "SplitPacket::new: `(id >> 31) & 1`")
+def _(s):
+    f = block(block(s, r"\bimpl\s+SplitPacket\s*\{", "impl SplitPacket"), r"fn\s+new\s*\(", "SplitPacket::new")
+    return rust_int(need(r"\(\(id\s*>>\s*([0-9]+)\)\s*&\s*1u32\)\s*==\s*1u32", f, "compressed bit").group(1))
+
+
+@const("valve_goldsrc_server_types", "List (Nat × String)", F_VP, "get_goldsrc_server_info: server_type match")
+def _(s):
+    f = block(s, r"fn\s+get_goldsrc_server_info\b", "get_goldsrc_server_info")
+    return match_arms_to(block(f, r"let\s+server_type\s*=\s*match\b", "server_type match"), "Server::", "server_type arms", at_least=2)
+
+
+@const("valve_goldsrc_environments", "List (Nat × String)", F_VP, "get_goldsrc_server_info: environment_type match")
+def _(s):
+    f = block(s, r"fn\s+get_goldsrc_server_info\b", "get_goldsrc_server_info")
+    return match_arms_to(block(f, r"let\s+environment_type\s*=\s*match\b", "environment_type match"), "Environment::", "environment arms", at_least=2)
+
+
+@const("valve_edf_flags", "List (String × Nat)", F_VP, "get_server_info: extra data flag of each ExtraData field")
+def _(s):
+    f = block(s, r"fn\s+get_server_info\b", "get_server_info")
+    r = need_all(r"(\w+):\s*match\s*\(value\s*&\s*(0x[0-9A-Fa-f]+)\)\s*>\s*0", f, "extra data flags", count=6)
+    return [(n, rust_int(v)) for n, v in r]
+
+
+@const("valve_appid_mask_bits", "Nat", F_VP, "get_server_info: `gid & ((1 << 24) - 1)`")
+def _(s):
+    f = block(s, r"fn\s+get_server_info\b", "get_server_info")
+    return rust_int(need(r"gid\s*&\s*\(\(1\s*<<\s*([0-9]+)\)\s*-\s*1\)", f, "app id mask").group(1))
+
+
+@const("valve_the_ship_appids", "List Nat", F_VP, "Engine::new(2400) tests of get_server_info (the_ship) and get_server_players (deaths, money)")
+def _(s):
+    a = need_all(r"match\s+\*engine\s*==\s*Engine::new\(([0-9_]+)\)", block(s, r"fn\s+get_server_info\b", "get_server_info"), "the_ship test", count=1)
+    b = need_all(r"match\s+\*engine\s*==\s*Engine::new\(([0-9_]+)\)", block(s, r"fn\s+get_server_players\b", "get_server_players"), "deaths/money tests", count=2)
+    return [rust_int(x) for x in a + b]
+
+
+@const("valve_ror2_appid", "Nat", F_VP, "get_server_rules: `if *engine == Engine::new(632_360)`")
+def _(s):
+    f = block(s, r"fn\s+get_server_rules\b", "get_server_rules")
+    return rust_int(need(r"if\s+\*engine\s*==\s*Engine::new\(([0-9_]+)\)", f, "ROR2 app id").group(1))
+
+
+@const("valve_ror2_removed_rule", "String", F_VP, "get_server_rules: `rules.remove(\"Test\")`")
+def _(s):
+    f = block(s, r"fn\s+get_server_rules\b", "get_server_rules")
+    return rust_str(need(r"rules\.remove\(%s\)" % STR, f, "removed rule").group(1))
+
+
+# ---- GameSpy 1
+
+def removes_in_order(f, what, password_marker=True):
+    """keys taken out of `server_vars` by a `query` function, in source order; `has_password(&mut server_vars)` stands for the
+    key common.rs removes"""
+    keys = []
+    for m in re.finditer(r"server_vars\s*\.remove\(%s\)|has_password\(&mut\s+server_vars\)" % STR, f):
+        if m.group(1) is not None:
+            keys.append(rust_str(m.group(1)))
+        elif password_marker:
+            keys.append(password_key())
+    if not keys:
+        raise ConstError(f"{what}: no `server_vars.remove(\"…\")` found")
+    return keys
+
+
+def password_key():
+    f = block(csrc(F_GC), r"fn\s+has_password\b", "common.rs has_password")
+    return rust_str(need(r"server_vars\s*\.remove\(%s\)" % STR, f, "has_password key").group(1))
+
+
+@const("gs_password_key", "String", F_GC, "has_password: `server_vars.remove(\"password\")`")
+def _(s):
+    return password_key()
+
+
+@const("gs1_packet_size", "Nat", F_G1, "const PACKET_SIZE")
+def _(s):
+    return rust_int(const_decl(s, "PACKET_SIZE"))
+
+
+@const("gs1_status_request", BYTES, F_G1, "get_server_values_impl: `socket.send(b\"\\\\status\\\\xserverquery\")`")
+def _(s):
+    f = block(s, r"fn\s+get_server_values_impl\b", "get_server_values_impl")
+    return str_bytes(rust_str(need(r"socket\.send\(b%s\)" % STR, f, "status request").group(1)))
+
+
+@const("gs1_final_key", "String", F_G1, "get_server_values_impl: `server_values.remove(\"final\")`")
+def _(s):
+    f = block(s, r"fn\s+get_server_values_impl\b", "get_server_values_impl")
+    return rust_str(need(r"let\s+is_final\s*=\s*server_values\.remove\(%s\)" % STR, f, "final key").group(1))
+
+
+@const("gs1_queryid_key", "String", F_G1, "get_server_values_impl: `server_values.get(\"queryid\")` / `.remove(\"queryid\")`")
+def _(s):
+    f = block(s, r"fn\s+get_server_values_impl\b", "get_server_values_impl")
+    a = rust_str(need(r"let\s+query_data\s*=\s*server_values\.get\(%s\)" % STR, f, "queryid get").group(1))
+    b = rust_str(need(r"server_values\.remove\(%s\);" % STR, f, "queryid remove").group(1))
+    if a != b:
+        raise ConstError(f"queryid key: get uses {a!r}, remove uses {b!r}")
+    return a
+
+
+@const("gs1_player_kinds", "List String", F_G1, "extract_players: the field kinds of the `match kind` arm")
+def _(s):
+    f = block(s, r"fn\s+extract_players\b", "extract_players")
+    m = need(r"let\s+early_return\s*=\s*match\s+kind\s*\{\s*((?:\"\w+\"\s*\|?\s*)+)=>\s*false", f, "player field kinds")
+    return [rust_str(x) for x in re.findall(STR, m.group(1))]
+
+
+@const("gs1_player_gets", "List String", F_G1, "extract_players: `player_data.get(\"…\")` keys, in source order")
+def _(s):
+    f = block(s, r"fn\s+extract_players\b", "extract_players")
+    return [rust_str(x) for x in need_all(r"player_data\s*\.get\(%s\)" % STR, f, "player_data.get keys", at_least=5)]
+
+
+@const("gs1_typed_keys", "List String", F_G1, "query: keys removed from server_vars, in source order (has_password = its key)")
+def _(s):
+    return removes_in_order(block(s, r"pub\s+fn\s+query\b", "one::query"), "one::query")
+
+
+@const("gs1_tournament_default", "String", F_G1, "query: tournament `unwrap_or_else(|| \"true\".to_string())`")
+def _(s):
+    f = block(s, r"pub\s+fn\s+query\b", "one::query")
+    return rust_str(need(r"\.remove\(\"tournament\"\)\s*\.unwrap_or_else\(\|\|\s*%s\.to_string\(\)\)" % STR, f, "tournament default").group(1))
+
+
+# ---- GameSpy 2
+
+@const("gs2_packet_size", "Nat", F_G2, "const PACKET_SIZE")
+def _(s):
+    return rust_int(const_decl(s, "PACKET_SIZE"))
+
+
+@const("gs2_request", BYTES, F_G2, "request_data_impl: the bytes sent")
+def _(s):
+    f = block(s, r"fn\s+request_data_impl\b", "request_data_impl")
+    return rust_bytes(need(r"\.send\(&\[([^\]]*)\]\)", f, "request bytes").group(1))
+
+
+@const("gs2_reply_header", "List Nat", F_G2, "request_data_impl: `read::<u8>() != 0 || read::<u32>() != 1`")
+def _(s):
+    f = block(s, r"fn\s+request_data_impl\b", "request_data_impl")
+    m = need(r"buf\.read::<u8>\(\)\?\s*!=\s*([0-9]+)\s*\|\|\s*buf\.read::<u32>\(\)\?\s*!=\s*([0-9]+)", f, "reply header check")
+    return [rust_int(m.group(1)), rust_int(m.group(2))]
+
+
+@const("gs2_typed_keys", "List String", F_G2, "query: keys removed from server_vars, in source order")
+def _(s):
+    return removes_in_order(block(s, r"pub\s+fn\s+query\b", "two::query"), "two::query")
+
+
+@const("gs2_player_columns", "List String", F_G2, "get_players: table_extract! column names")
+def _(s):
+    f = block(s, r"fn\s+get_players\b", "get_players")
+    return [rust_str(x) for x in need_all(r"table_extract(?:_parse)?!\(table,\s*%s,\s*index\)" % STR, f, "player columns", at_least=1)]
+
+
+@const("gs2_team_columns", "List String", F_G2, "get_teams: table_extract! column names")
+def _(s):
+    f = block(s, r"fn\s+get_teams\b", "get_teams")
+    return [rust_str(x) for x in need_all(r"table_extract(?:_parse)?!\(table,\s*%s,\s*index\)" % STR, f, "team columns", at_least=1)]
+
+
+@const("gs2_password_true", "String", F_G2, "query: `remove(\"password\") … == \"1\"`")
+def _(s):
+    f = block(s, r"pub\s+fn\s+query\b", "two::query")
+    return rust_str(need(r"\.remove\(\"password\"\)\.ok_or\(PacketBad\)\?\s*==\s*%s" % STR, f, "password comparison").group(1))
+
+
+# ---- GameSpy 3
+
+@const("gs3_session_id", "Nat", F_G3, "const THIS_SESSION_ID")
+def _(s):
+    return rust_int(const_decl(s, "THIS_SESSION_ID", "u32"))
+
+
+@const("gs3_packet_size", "Nat", F_G3, "const PACKET_SIZE")
+def _(s):
+    return rust_int(const_decl(s, "PACKET_SIZE"))
+
+
+@const("gs3_default_payload", BYTES, F_G3, "const DEFAULT_PAYLOAD")
+def _(s):
+    return rust_bytes(need(r"const\s+DEFAULT_PAYLOAD\s*:\s*\[u8;\s*4\]\s*=\s*\[([^\]]*)\];", s, "DEFAULT_PAYLOAD").group(1))
+
+
+def _gs3_packet(s, fn):
+    f = block(s, r"fn\s+%s\b" % fn, fn)
+    m = need(r"RequestPacket\s*\{\s*header:\s*([0-9_]+),\s*kind:\s*([0-9]+),\s*session_id:\s*THIS_SESSION_ID,", f, f"{fn}: RequestPacket literal")
+    return rust_int(m.group(1)), rust_int(m.group(2)), f
+
+
+@const("gs3_request_header", "Nat", F_G3, "RequestPacket { header: 65277, … } of make_initial_handshake and send_data_request")
+def _(s):
+    a, b = _gs3_packet(s, "make_initial_handshake")[0], _gs3_packet(s, "send_data_request")[0]
+    if a != b:
+        raise ConstError(f"gs3 request header: handshake uses {a}, data request uses {b}")
+    need(r"self\.header\.to_be_bytes\(\)", block(s, r"\bimpl\s+RequestPacket\s*\{", "impl RequestPacket"), "RequestPacket::to_bytes: header.to_be_bytes()")
+    return a
+
+
+@const("gs3_handshake_kind", "Nat", F_G3, "make_initial_handshake: RequestPacket kind")
+def _(s):
+    return _gs3_packet(s, "make_initial_handshake")[1]
+
+
+@const("gs3_data_kind", "Nat", F_G3, "send_data_request: RequestPacket kind")
+def _(s):
+    return _gs3_packet(s, "send_data_request")[1]
+
+
+@const("gs3_handshake_receive", "List Nat", F_G3, "make_initial_handshake: `self.receive(Some(16), 9)` (buffer size, expected kind)")
+def _(s):
+    f = _gs3_packet(s, "make_initial_handshake")[2]
+    m = need(r"self\.receive\(Some\(([0-9]+)\),\s*([0-9]+)\)", f, "handshake receive")
+    return [rust_int(m.group(1)), rust_int(m.group(2))]
+
+
+@const("gs3_data_receive_kind", "Nat", F_G3, "get_server_packets_impl: `self.receive(None, 0)`")
+def _(s):
+    f = block(s, r"fn\s+get_server_packets_impl\b", "get_server_packets_impl")
+    return rust_int(need(r"self\.receive\(None,\s*([0-9]+)\)", f, "data receive").group(1))
+
+
+@const("gs3_splitnum", "String", F_G3, "get_server_packets_impl: `!= \"splitnum\"`")
+def _(s):
+    f = block(s, r"fn\s+get_server_packets_impl\b", "get_server_packets_impl")
+    return rust_str(need(r"read_string::<Utf8Decoder>\(None\)\?\s*!=\s*%s" % STR, f, "splitnum tag").group(1))
+
+
+@const("gs3_last_flag_and_id_mask", "List Nat", F_G3, "get_server_packets_impl: `(id & 0x80) > 0`, `id & 0x7f`")
+def _(s):
+    f = block(s, r"fn\s+get_server_packets_impl\b", "get_server_packets_impl")
+    a = need(r"let\s+is_last\s*=\s*\(id\s*&\s*(0x[0-9A-Fa-f]+)\)\s*>\s*0", f, "last flag")
+    b = need(r"let\s+packet_id\s*=\s*\(id\s*&\s*(0x[0-9A-Fa-f]+)\)\s*as\s+usize", f, "id mask")
+    return [rust_int(a.group(1)), rust_int(b.group(1))]
+
+
+@const("gs3_single_packet_skip", "Nat", F_G3, "get_server_packets_impl: `buf.move_cursor(11)` in single-packet mode")
+def _(s):
+    f = block(s, r"fn\s+get_server_packets_impl\b", "get_server_packets_impl")
+    return rust_int(need(r"if\s+self\.single_packets\s*\{\s*buf\.move_cursor\(([0-9]+)\)\?", f, "single packet skip").group(1))
+
+
+@const("gs3_known_fields", "List String", F_G3, "parse_players_and_teams: the list of typed field names")
+def _(s):
+    f = block(s, r"fn\s+parse_players_and_teams\b", "parse_players_and_teams")
+    m = need(r"if\s+!\[((?:\s*\"\w+\"\s*,?)+)\]\.contains\(field_name\)", f, "typed field names")
+    return [rust_str(x) for x in re.findall(STR, m.group(1))]
+
+
+@const("gs3_team_suffix", "String", F_G3, "parse_players_and_teams: `if v != &\"t\"`")
+def _(s):
+    f = block(s, r"fn\s+parse_players_and_teams\b", "parse_players_and_teams")
+    return rust_str(need(r"if\s+v\s*!=\s*&%s" % STR, f, "team suffix").group(1))
+
+
+@const("gs3_section_marker_bound", "Nat", F_G3, "parse_players_and_teams: `if buf.read::<u8>()? < 3`")
+def _(s):
+    f = block(s, r"fn\s+parse_players_and_teams\b", "parse_players_and_teams")
+    return rust_int(need(r"if\s+buf\.read::<u8>\(\)\?\s*<\s*([0-9]+)\s*\{\s*continue", f, "section marker bound").group(1))
+
+
+@const("gs3_player_gets", "List String", F_G3, "parse_players_and_teams: `player_data.get(\"…\")` keys, in source order")
+def _(s):
+    f = block(s, r"fn\s+parse_players_and_teams\b", "parse_players_and_teams")
+    return [rust_str(x) for x in need_all(r"player_data\s*\.get\(%s\)" % STR, f, "player_data.get keys", at_least=2)]
+
+
+@const("gs3_team_gets", "List String", F_G3, "parse_players_and_teams: `team_data.get(\"…\")` keys, in source order")
+def _(s):
+    f = block(s, r"fn\s+parse_players_and_teams\b", "parse_players_and_teams")
+    return [rust_str(x) for x in need_all(r"team_data\s*\.get\(%s\)" % STR, f, "team_data.get keys", at_least=1)]
+
+
+@const("gs3_typed_keys", "List String", F_G3, "query: keys removed from server_vars, in source order (has_password = its key)")
+def _(s):
+    return removes_in_order(block(s, r"pub\s+fn\s+query\b", "three::query"), "three::query")
+
+
+# ---- Quake
+
+@const("quake_packet_size", "Nat", F_QC, "const PACKET_SIZE")
+def _(s):
+    return rust_int(const_decl(s, "PACKET_SIZE"))
+
+
+@const("quake_request_frame", "List (List UInt8)", F_QC, "get_data_impl: the bytes before and after the send header")
+def _(s):
+    f = block(s, r"fn\s+get_data_impl\b", "get_data_impl")
+    m = need(r"socket\.send\(\s*&\[\s*&\[([^\]]*)\],\s*Client::get_send_header\(\)\.as_bytes\(\),\s*&\[([^\]]*)\],?\s*\]\s*\.concat\(\)", f, "request frame")
+    return [rust_bytes(m.group(1)), rust_bytes(m.group(2))]
+
+
+@const("quake_reply_header", "Nat", F_QC, "get_data_impl: `read::<u32>() != u32::MAX`")
+def _(s):
+    f = block(s, r"fn\s+get_data_impl\b", "get_data_impl")
+    return rust_int(need(r"bufferer\.read::<u32>\(\)\?\s*!=\s*([A-Za-z0-9_:]+)", f, "reply header").group(1))
+
+
+def _quake_header(kind):
+    files = {"One": ("protocols/quake/one.rs", "QuakeOne"), "Two": ("protocols/quake/two.rs", "QuakeTwo"), "Three": ("protocols/quake/three.rs", "QuakeThree")}
+
+    def get(v, depth=0):
+        rel, ty = files[v]
+        imp = block(csrc(rel), r"\bimpl\s+QuakeClient\s+for\s+%s\s*\{" % ty, f"impl QuakeClient for {ty}")
+        m = need(r"fn\s+get_%s_header<'a>\(\)\s*->\s*&'a\s+str\s*\{\s*(?:%s|Quake(One|Two|Three)::get_%s_header\(\))\s*\}" % (kind, STR, kind),
+                 imp, f"{ty}::get_{kind}_header")
+        if m.group(1) is not None:
+            return rust_str(m.group(1))
+        if depth > 2:
+            raise ConstError(f"{ty}::get_{kind}_header: delegation loop")
+        return get(m.group(2), depth + 1)
+    return [(v, str_bytes(get(v))) for v in ("One", "Two", "Three")]
+
+
+@const("quake_send_headers", "List (String × List UInt8)", "protocols/quake/{one,two,three}.rs", "QuakeClient::get_send_header per version")
+def _(s):
+    return _quake_header("send")
+
+
+@const("quake_response_headers", "List (String × List UInt8)", "protocols/quake/{one,two,three}.rs", "QuakeClient::get_response_header per version")
+def _(s):
+    return _quake_header("response")
+
+
+@const("quake_var_names", "List (String × String × String)", F_QC, "client_query: (response field, variable, fallback variable)")
+def _(s):
+    f = block(s, r"pub\s+fn\s+client_query\b", "client_query")
+    r = need_all(r"(\w+):\s*server_vars\s*\.remove\(%s\)\s*\.or_else\(\|\|\s*server_vars\.remove\(%s\)\)" % (STR, STR), f, "variable names", count=4)
+    return [(a, rust_str(b), rust_str(c)) for a, b, c in r]
+
+
+@const("quake_line_delimiter", "List Nat", F_QC, "get_server_values / get_players: `read_string::<Utf8Decoder>(Some([0x0A]))`")
+def _(s):
+    r = need_all(r"read_string::<Utf8Decoder>\(Some\(\[(0x[0-9A-Fa-f]+)\]\)\)", s, "line delimiter", count=2)
+    return [rust_int(x) for x in r]
+
+
+# ---- Unreal 2
+
+@const("unreal2_packet_size", "Nat", F_UP, "const PACKET_SIZE")
+def _(s):
+    return rust_int(const_decl(s, "PACKET_SIZE"))
+
+
+@const("unreal2_default_player_preallocation", "Nat", F_UP, "const DEFAULT_PLAYER_PREALLOCATION")
+def _(s):
+    return rust_int(const_decl(s, "DEFAULT_PLAYER_PREALLOCATION"))
+
+
+@const("unreal2_maximum_player_preallocation", "Nat", F_UP, "const MAXIMUM_PLAYER_PREALLOCATION")
+def _(s):
+    return rust_int(const_decl(s, "MAXIMUM_PLAYER_PREALLOCATION"))
+
+
+@const("unreal2_request_prefix", BYTES, F_UP, "get_request_data_impl: `[0x79, 0, 0, 0, packet_type as u8]`")
+def _(s):
+    f = block(s, r"fn\s+get_request_data_impl\b", "get_request_data_impl")
+    return rust_bytes(need(r"let\s+request\s*=\s*\[([^\]]*?),\s*packet_type\s+as\s+u8\s*\]", f, "request bytes").group(1))
+
+
+@const("unreal2_header_skip", "Nat", F_UP, "consume_response_headers: `buffer.move_cursor(4)`")
+def _(s):
+    f = block(s, r"fn\s+consume_response_headers\b", "consume_response_headers")
+    return rust_int(need(r"buffer\.move_cursor\(([0-9]+)\)\?", f, "header skip").group(1))
+
+
+@const("unreal2_packet_kinds", "List (String × Nat)", F_UT, "enum PacketKind (discriminants)")
+def _(s):
+    return enum_codes(s, "PacketKind", "enum PacketKind")
+
+
+@const("unreal2_packet_kind_of", "List (Nat × String)", F_UT, "impl TryFrom<u8> for PacketKind")
+def _(s):
+    f = block(s, r"\bimpl\s+TryFrom<u8>\s+for\s+PacketKind\s*\{", "impl TryFrom<u8> for PacketKind")
+    return match_arms_to(f, "Self::", "PacketKind::try_from arms", at_least=2)
+
+
+@const("unreal2_mutator_key", "String", F_UT, "MutatorsAndRules::parse: `key.eq_ignore_ascii_case(\"mutator\")`")
+def _(s):
+    return rust_str(need(r"key\.eq_ignore_ascii_case\(%s\)" % STR, s, "mutator key").group(1))
+
+
+@const("unreal2_password_rule", "List String", F_UP, "Unreal2Protocol::query: `rules.get(\"GamePassword\")`, `string == \"true\"`")
+def _(s):
+    f = block(s, r"pub\s+fn\s+query\(&mut\s+self", "Unreal2Protocol::query")
+    a = need(r"mutators_and_rules\.rules\.get\(%s\)" % STR, f, "password rule")
+    b = need(r"server_info\.password\s*=\s*string\s*==\s*%s" % STR, f, "password comparison")
+    return [rust_str(a.group(1)), rust_str(b.group(1))]
+
+
+@const("unreal2_string_consts", "List (String × Nat)", F_UP, "Unreal2StringDecoder::decode_string: UCS-2 threshold and mask, colour escape, characters dropped after it, last control character removed")
+def _(s):
+    f = block(s, r"fn\s+decode_string\b", "decode_string")
+    return [("ucs2_threshold", rust_int(need(r"if\s+length\s*>=\s*(0x[0-9A-Fa-f]+)", f, "UCS-2 threshold").group(1))),
+            ("length_mask", rust_int(need(r"length\s*=\s*\(length\s*&\s*(0x[0-9A-Fa-f]+)\)\s*\*\s*2", f, "length mask").group(1))),
+            ("stray_byte", rust_int(need(r"\.first\(\)\s*==\s*Some\(&([0-9]+)\)", f, "stray byte").group(1))),
+            ("colour_escape", rust_int(need(r"if\s+('\\x[0-9a-fA-F]{2}')\.eq\(c\)", f, "colour escape").group(1))),
+            ("colour_skip", rust_int(need(r"char_skip\s*=\s*([0-9]+);", f, "colour skip").group(1))),
+            ("last_control", rust_int(need(r"c\s*>\s*'\\x00'\s*&&\s*c\s*<=\s*('\\x[0-9a-fA-F]{2}')", f, "last control character").group(1)))]
+
+
+@const("unreal2_gather_default", "List (String × String)", F_UT, "GatheringSettings::default")
+def _(s):
+    f = block(block(s, r"\bimpl\s+GatheringSettings\s*\{", "impl GatheringSettings"), r"fn\s+default\b", "GatheringSettings::default")
+    return [("players", need(r"players:\s*GatherToggle::(\w+)", f, "players").group(1)),
+            ("mutators_and_rules", need(r"mutators_and_rules:\s*GatherToggle::(\w+)", f, "mutators_and_rules").group(1))]
+
+
+# ---- Minecraft
+
+F_MB = "games/minecraft/protocol/bedrock.rs"
+F_MJ = "games/minecraft/protocol/java.rs"
+F_MTY = "games/minecraft/types.rs"
+F_MM = "games/minecraft/mod.rs"
+
+
+@const("mc_bedrock_request", BYTES, F_MB, "Bedrock::send_status_request: the bytes sent")
+def _(s):
+    f = block(s, r"fn\s+send_status_request\b", "send_status_request")
+    return rust_bytes(need(r"\.send\(&\[([^\]]*)\]\)", f, "unconnected ping").group(1))
+
+
+@const("mc_bedrock_reply_checks", "List (String × Nat)", F_MB, "Bedrock::get_info_impl: reply id, nonce and the two magic words (little-endian u64), minimum number of fields")
+def _(s):
+    f = block(s, r"fn\s+get_info_impl\b", "get_info_impl")
+    ident = need(r"buffer\.read::<u8>\(\)\?\s*!=\s*(0x[0-9A-Fa-f]+)", f, "reply id")
+    words = need_all(r"buffer\.read::<u64>\(\)\?\s*!=\s*([0-9_]+)", f, "nonce and magic", count=3)
+    skip = need(r"buffer\.move_cursor\(([0-9]+)\)\?", f, "server id skip")
+    least = need(r"if\s+status\.len\(\)\s*<\s*([0-9]+)", f, "minimum fields")
+    return [("id", rust_int(ident.group(1))), ("nonce", rust_int(words[0])), ("server_id_skip", rust_int(skip.group(1))),
+            ("magic_low", rust_int(words[1])), ("magic_high", rust_int(words[2])), ("min_fields", rust_int(least.group(1)))]
+
+
+@const("mc_bedrock_field_indices", "List (String × Nat)", F_MB, "Bedrock::get_info_impl: index of each response field in the `;`-separated status")
+def _(s):
+    f = block(s, r"fn\s+get_info_impl\b", "get_info_impl")
+    r = need_all(r"(\w+):\s*(?:match\s+)?status(?:\[([0-9]+)\]|\.get\(([0-9]+)\))", f, "status indices", at_least=9)
+    return [(n, rust_int(a or b)) for n, a, b in r]
+
+
+@const("mc_bedrock_game_modes", "List (String × String)", F_MTY, "GameMode::from_bedrock (text ↦ variant)")
+def _(s):
+    f = block(s, r"fn\s+from_bedrock\(value", "GameMode::from_bedrock")
+    return [(rust_str(a), b) for a, b in need_all(r"%s\s*=>\s*Ok\(Self::(\w+)\)" % STR, f, "game mode arms", at_least=2)]
+
+
+@const("mc_request_settings_default", "List (String × String)", F_MTY, "impl Default for RequestSettings")
+def _(s):
+    f = block(s, r"\bimpl\s+Default\s+for\s+RequestSettings\s*\{", "impl Default for RequestSettings")
+    return [("hostname", rust_str(need(r"hostname:\s*%s\.to_string\(\)" % STR, f, "hostname").group(1))),
+            ("protocol_version", str(rust_int(need(r"protocol_version:\s*(-?[0-9]+)", f, "protocol_version").group(1))))]
+
+
+@const("mc_default_ports", "List (String × Nat)", F_MM, "port_or_java_default / port_or_bedrock_default")
+def _(s):
+    return [(k, rust_int(need(r"fn\s+port_or_%s_default\(port:\s*Option<u16>\)\s*->\s*u16\s*\{\s*port\.unwrap_or\(([0-9_]+)\)" % k, s, f"port_or_{k}_default").group(1)))
+            for k in ("java", "bedrock")]
+
+
+@const("mc_java_packet_ids", "List (String × List UInt8)", F_MJ, "Java: handshake packet id and next state, status request, ping request")
+def _(s):
+    h = block(s, r"fn\s+send_handshake\b", "send_handshake")
+    ids = need_all(r"&\[\s*(0x[0-9A-Fa-f]+)\s*,?\s*\]", h, "handshake id / next state", count=2)
+    st = need(r"\[([^\]]*)\]\s*\.to_vec\(\)", block(s, r"fn\s+send_status_request\b", "send_status_request"), "status request")
+    pg = need(r"\[([^\]]*)\]\s*\.to_vec\(\)", block(s, r"fn\s+send_ping_request\b", "send_ping_request"), "ping request")
+    return [("handshake_id", rust_bytes(ids[0])), ("next_state", rust_bytes(ids[1])), ("status", rust_bytes(st.group(1))), ("ping", rust_bytes(pg.group(1)))]
+
+
+def _legacy_request(rel):
+    f = block(csrc(rel), r"fn\s+send_initial_request\b", "send_initial_request")
+    return rust_bytes(need(r"\.send\(&\[([^\]]*)\]\)", f, "initial request").group(1))
+
+
+@const("mc_legacy_requests", "List (String × List UInt8)", "games/minecraft/protocol/legacy_{v1_6,v1_4,vb1_8}.rs", "send_initial_request per legacy group")
+def _(s):
+    return [(k, _legacy_request(f"games/minecraft/protocol/legacy_{k}.rs")) for k in ("v1_6", "v1_4", "vb1_8")]
+
+
+@const("mc_legacy16_marker", BYTES, "games/minecraft/protocol/legacy_v1_6.rs", "LegacyV1_6::is_protocol: `starts_with(&[…])`")
+def _(s):
+    s = csrc("games/minecraft/protocol/legacy_v1_6.rs")
+    return rust_bytes(need(r"\.starts_with\(&\[([^\]]*)\]\)", block(s, r"fn\s+is_protocol\b", "is_protocol"), "1.6 marker").group(1))
+
+
+@const("mc_legacy_reply_ids", "List (String × Nat)", "games/minecraft/protocol/legacy_{v1_6,v1_4,vb1_8}.rs", "`buffer.read::<u8>()? != 0xFF` per legacy group")
+def _(s):
+    return [(k, rust_int(need(r"buffer\.read::<u8>\(\)\?\s*!=\s*(0x[0-9A-Fa-f]+)", csrc(f"games/minecraft/protocol/legacy_{k}.rs"), f"legacy_{k} reply id").group(1)))
+            for k in ("v1_6", "v1_4", "vb1_8")]
+
+
+@const("mc_legacy_versions", "List (String × String)", "games/minecraft/protocol/legacy_{v1_4,vb1_8}.rs", "`game_version: \"…\".to_string()` of the groups without a version field")
+def _(s):
+    return [(k, rust_str(need(r"game_version:\s*%s\.to_string\(\)" % STR, csrc(f"games/minecraft/protocol/legacy_{k}.rs"), f"legacy_{k} game_version").group(1)))
+            for k in ("v1_4", "vb1_8")]
+
+
+# ---- single games
+
+def _unwrap_or_port(rel, what):
+    return rust_int(need(r"port\.unwrap_or\(([0-9_]+)\)", csrc(rel), what).group(1))
+
+
+@const("ffow_request", "List (String × List UInt8)", "games/ffow/protocol.rs", "query_with_timeout: get_request_data(&Engine::GoldSrc(true), 0, 0x46, \"LSQ\")")
+def _(s):
+    m = need(r"client\.get_request_data\(\s*&Engine::GoldSrc\((true|false)\),\s*([0-9]+),\s*(0x[0-9A-Fa-f]+|[0-9]+),\s*String::from\(%s\)\.into_bytes\(\),?\s*\)" % STR,
+             s, "get_request_data call")
+    return [("goldsrc_force", [1 if m.group(1) == "true" else 0]), ("protocol", [rust_int(m.group(2))]), ("kind", [rust_int(m.group(3))]),
+            ("payload", str_bytes(rust_str(m.group(4))))]
+
+
+@const("ffow_skips", "List Nat", "games/ffow/protocol.rs", "query_with_timeout: `buffer.move_cursor(n)` in order")
+def _(s):
+    return [rust_int(x) for x in need_all(r"buffer\.move_cursor\(([0-9]+)\)\?", s, "cursor moves", count=2)]
+
+
+@const("jc2m_payload", BYTES, "games/jc2m/protocol.rs", "query_with_timeout: GameSpy3::new_custom payload")
+def _(s):
+    m = need(r"GameSpy3::new_custom\(.*?,\s*timeout_settings,\s*\[([^\]]*)\],\s*(true|false),?\s*\)", s, "new_custom call")
+    if m.group(2) != "true":
+        raise ConstError("jc2m: single_packets is no longer `true`")
+    return rust_bytes(m.group(1))
+
+
+@const("jc2m_typed_keys", "List String", "games/jc2m/protocol.rs", "query_with_timeout: keys removed from server_vars, in source order")
+def _(s):
+    return removes_in_order(block(s, r"pub\s+fn\s+query_with_timeout\b", "jc2m query_with_timeout"), "jc2m query_with_timeout")
+
+
+@const("savage2_request", BYTES, "games/savage2/protocol.rs", "query_with_timeout: `socket.send(&[0x01])`")
+def _(s):
+    return rust_bytes(need(r"socket\.send\(&\[([^\]]*)\]\)", s, "request").group(1))
+
+
+@const("savage2_header_skip", "Nat", "games/savage2/protocol.rs", "query_with_timeout: `buffer.move_cursor(12)`")
+def _(s):
+    return rust_int(need(r"buffer\.move_cursor\(([0-9]+)\)\?", s, "header skip").group(1))
+
+
+@const("mindustry_max_buffer_size", "Nat", "games/mindustry/protocol.rs", "const MAX_BUFFER_SIZE")
+def _(s):
+    return rust_int(const_decl(s, "MAX_BUFFER_SIZE"))
+
+
+@const("mindustry_ping", BYTES, "games/mindustry/protocol.rs", "send_ping: `[-2i8 as u8, 1i8 as u8]`")
+def _(s):
+    return rust_bytes(need(r"fn\s+send_ping\b[^{]*\{\s*socket\.send\(&\[([^\]]*)\]\)", s, "ping").group(1))
+
+
+@const("mindustry_game_modes", "List (Nat × String)", "games/mindustry/types.rs", "impl TryFrom<u8> for GameMode")
+def _(s):
+    return match_arms_to(block(s, r"\bimpl\s+TryFrom<u8>\s+for\s+GameMode\s*\{", "impl TryFrom<u8> for GameMode"), "", "game mode arms", at_least=2)
+
+
+@const("battalion_overrides", "List (String × String)", "games/battalion1944.rs", "query: (rule key, info field it overrides), in source order; the last key is only removed")
+def _(s):
+    r = []
+    for m in re.finditer(r"if\s+let\s+Some\((\w+)\)\s*=\s*rules\.get\(%s\)\s*\{(.*?)rules\.remove\(%s\);" % (STR, STR), s, re.S):
+        if m.group(2) != m.group(4):
+            raise ConstError(f"battalion1944: `{m.group(2)}` is read but `{m.group(4)}` is removed")
+        fm = need(r"valve_response\.info\.(\w+)", m.group(3), f"field overridden by {m.group(2)}")
+        r.append((rust_str(m.group(2)), fm.group(1)))
+    tail = need(r"\}\s*rules\.remove\(%s\);\s*\}" % STR, s, "the key removed unconditionally")
+    if len(r) < 2:
+        raise ConstError("battalion1944: override blocks not found")
+    return r + [(rust_str(tail.group(1)), "")]
+
+
+@const("battalion_password_yes", "String", "games/battalion1944.rs", "query: `bat_has_password == \"Y\"`")
+def _(s):
+    return rust_str(need(r"has_password\s*=\s*bat_has_password\s*==\s*%s" % STR, s, "password comparison").group(1))
+
+
+@const("game_engines", "List (String × Nat)", "games/{theship/protocol,battalion1944}.rs", "Engine::new(app id) of the hand-written Valve game modules")
+def _(s):
+    return [("theship", rust_int(need(r"Engine::new\(([0-9_]+)\)", csrc("games/theship/protocol.rs"), "theship engine").group(1))),
+            ("battalion1944", rust_int(need(r"Engine::new\(([0-9_]+)\)", csrc("games/battalion1944.rs"), "battalion1944 engine").group(1)))]
+
+
+@const("game_default_ports", "List (String × Nat)", "games/*/protocol.rs, games/battalion1944.rs, games/mindustry/mod.rs", "`port.unwrap_or(n)` of the hand-written game modules")
+def _(s):
+    r = [(g, _unwrap_or_port(rel, f"{g} default port")) for g, rel in
+         (("ffow", "games/ffow/protocol.rs"), ("jc2m", "games/jc2m/protocol.rs"), ("savage2", "games/savage2/protocol.rs"),
+          ("theship", "games/theship/protocol.rs"), ("battalion1944", "games/battalion1944.rs"), ("eco", "games/eco/protocol.rs"))]
+    m = csrc("games/mindustry/mod.rs")
+    need(r"port\.unwrap_or\(DEFAULT_PORT\)", m, "mindustry: port.unwrap_or(DEFAULT_PORT)")
+    return r + [("mindustry", rust_int(const_decl(m, "DEFAULT_PORT", "u16")))]
+
+
+@const("eco_path", "String", "games/eco/protocol.rs", "query_with_timeout_and_extra_settings: `client.get_json::<Root>(\"/frontpage\", None)`")
+def _(s):
+    return rust_str(need(r"client\.get_json::<Root>\(%s,\s*None\)" % STR, s, "document path").group(1))
+
+
+@const("eco_info_members", "List (String × String × String)", "games/eco/types.rs", "struct Info: (serde rename = JSON member, field, type), in declaration order")
+def _(s):
+    b = block(s, r"\bpub\s+struct\s+Info\s*\{", "struct Info")
+    r = need_all(r"#\[serde\(rename\s*=\s*%s\)\]\s*pub\s+(\w+)\s*:\s*([^\n]+?),\s*\n" % STR, b, "renamed fields", at_least=1, flags=0)
+    fields = re.findall(r"\bpub\s+(\w+)\s*:", b)
+    if len(fields) != len(r):
+        raise ConstError(f"struct Info: {len(fields)} fields but {len(r)} `#[serde(rename = …)]` attributes")
+    return [(rust_str(j), f, re.sub(r"\s+", "", t)) for j, f, t in r]
+
+
+@const("eco_root_member", "String", "games/eco/types.rs", "struct Root: serde rename of `info`")
+def _(s):
+    b = block(s, r"\bpub\s+struct\s+Root\s*\{", "struct Root")
+    return rust_str(need(r"#\[serde\(rename\s*=\s*%s\)\]\s*pub\s+info\s*:\s*Info" % STR, b, "Root.info rename").group(1))
+
+
+# ---- services: Valve master server
+
+@const("master_default_address", "List Nat", F_MS, "default_master_address: the four address bytes and the port")
+def _(s):
+    f = block(s, r"fn\s+default_master_address\b", "default_master_address")
+    m = need(r"Ipv4Addr::new\(([0-9]+),\s*([0-9]+),\s*([0-9]+),\s*([0-9]+)\)\),\s*([0-9_]+)\)", f, "address")
+    return [rust_int(m.group(i)) for i in range(1, 6)]
+
+
+@const("master_payload_frame", "List (List UInt8)", F_MS, "construct_payload: first byte, separator between ip and port, terminator; filters of `None`")
+def _(s):
+    f = block(s, r"fn\s+construct_payload\b", "construct_payload")
+    arr = need(r"\n\s*\[\s*(&\[.*?)\]\s*\.concat\(\)", f, "the concatenated slices").group(1)
+    lits = need_all(r"&\[([^\]&]*)\]\s*,", arr, "literal slices", count=3)
+    none = need(r"\.map_or_else\(\|\|\s*vec!\[([^\]]*)\],\s*SearchFilters::to_bytes\)", f, "filters of None")
+    return [rust_bytes(x) for x in lits] + [rust_bytes(none.group(1))]
+
+
+@const("master_receive_size", "Nat", F_MS, "query_specific: `self.socket.receive(Some(1400))`")
+def _(s):
+    f = block(s, r"pub\s+fn\s+query_specific\b", "query_specific")
+    return rust_int(need(r"self\.socket\.receive\(Some\(([0-9_]+)\)\)", f, "receive size").group(1))
+
+
+@const("master_reply_header", "List Nat", F_MS, "query_specific: `read::<u32>() != u32::MAX || read::<u16>() != 26122`")
+def _(s):
+    f = block(s, r"pub\s+fn\s+query_specific\b", "query_specific")
+    m = need(r"buf\.read::<u32>\(\)\?\s*!=\s*([A-Za-z0-9_:]+)\s*\|\|\s*buf\.read::<u16>\(\)\?\s*!=\s*([0-9_]+)", f, "reply header check")
+    return [rust_int(m.group(1)), rust_int(m.group(2))]
+
+
+@const("master_zero_address", "List String", F_MS, "every `\"0.0.0.0\"` of service.rs (seed and end marker)")
+def _(s):
+    return [rust_str(x) for x in need_all(r"\"(0\.0\.0\.0)\"", s, "zero address", at_least=4)]
+
+
+@const("master_filter_keys", "List (String × String × String)", F_MT, "Filter::to_bytes: (variant, text written before the value, kind of value)")
+def _(s):
+    f = block(block(s, r"\bimpl\s+Filter\s*\{", "impl Filter"), r"fn\s+to_bytes\b", "Filter::to_bytes")
+    out = []
+    for m in re.finditer(r"Self::(\w+)\((\w+)\)\s*=>\s*\{", f):
+        arm = balanced(f, m.end() - 1, "{", "}")
+        key = rust_str(need(r"bytes\s*=\s*b%s\.to_vec\(\);" % STR, arm, f"Filter::{m.group(1)} key").group(1))
+        if "bool_as_char_u8(" in arm:
+            kind = "bool"
+        elif re.search(r"\.to_string\(\)\.as_bytes\(\)", arm):
+            kind = "number"
+        elif "for tag in" in arm:
+            kind = "tags"
+        elif re.search(r"bytes\.extend\(\w+\.as_bytes\(\)\)", arm):
+            kind = "text"
+        else:
+            raise ConstError(f"Filter::{m.group(1)}: value encoding not understood")
+        out.append((m.group(1), key, kind))
+    variants = re.findall(r"\b([A-Z]\w*)\(", block(s, r"\bpub\s+enum\s+Filter\s*\{", "enum Filter"))
+    if sorted(v for v, _, _ in out) != sorted(variants):
+        raise ConstError(f"Filter::to_bytes: arms {sorted(v for v, _, _ in out)} do not cover the variants {sorted(variants)}")
+    return out
+
+
+@const("master_filter_variants", "List String", F_MT, "enum Filter: variants in declaration order")
+def _(s):
+    return re.findall(r"\b([A-Z]\w*)\(", block(s, r"\bpub\s+enum\s+Filter\s*\{", "enum Filter"))
+
+
+@const("master_group_names", "List String", F_MT, "SearchFilters::to_bytes: the names given to special_filter_to_bytes (nand, nor)")
+def _(s):
+    f = block(block(s, r"\bimpl\s+SearchFilters\s*\{", "impl SearchFilters"), r"fn\s+to_bytes\b", "SearchFilters::to_bytes")
+    a = need(r"special_filter_to_bytes\(%s,\s*&self\.nand_filters\)" % STR, f, "nand group")
+    b = need(r"special_filter_to_bytes\(%s,\s*&self\.nor_filters\)" % STR, f, "nor group")
+    return [rust_str(a.group(1)), rust_str(b.group(1))]
+
+
+@const("master_text_bytes", "List (String × Nat)", F_MT, "bool_as_char_u8 (true, false), the tag separator, the filter terminator")
+def _(s):
+    f = block(s, r"fn\s+bool_as_char_u8\b", "bool_as_char_u8")
+    t = need(r"true\s*=>\s*(b'.')", f, "true character")
+    e = need(r"false\s*=>\s*(b'.')", f, "false character")
+    sep = need(r"bytes\.extend\(\[(b'.')\]\);\s*\}\s*bytes\.pop\(\);", s, "tag separator")
+    fin = need(r"bytes\.extend\(\[(0x[0-9A-Fa-f]+)\]\);\s*bytes\s*\}", block(block(s, r"\bimpl\s+SearchFilters\s*\{", "impl SearchFilters"), r"fn\s+to_bytes\b", "SearchFilters::to_bytes"), "terminator")
+    return [("true", rust_int(t.group(1))), ("false", rust_int(e.group(1))), ("tag_separator", rust_int(sep.group(1))), ("terminator", rust_int(fin.group(1)))]
+
+
+@const("master_regions", "List (String × Nat)", F_MT, "enum Region (discriminants)")
+def _(s):
+    return enum_codes(s, "Region", "enum Region")
+
+
+# ---- settings, transport
+
+@const("timeout_defaults", "List (String × Nat)", F_PT, "TimeoutSettings::const_default: seconds of read / write / connect, retries")
+def _(s):
+    f = block(s, r"fn\s+const_default\b", "TimeoutSettings::const_default")
+    r = [(k, rust_int(need(r"%s:\s*Some\(Duration::from_secs\(([0-9_]+)\)\)" % k, f, f"default {k}").group(1))) for k in ("read", "write", "connect")]
+    return r + [("retries", rust_int(need(r"retries:\s*([0-9_]+)", f, "default retries").group(1)))]
+
+
+@const("timeout_clap_defaults", "List (String × String)", F_PT, "struct TimeoutSettings: clap `default_value` of each flag")
+def _(s):
+    b = block(s, r"\bpub\s+struct\s+TimeoutSettings\s*\{", "struct TimeoutSettings")
+    out = []
+    for k in ("connect", "read", "write", "retries"):
+        m = need(r"default_value\s*=\s*%s\s*\)\s*\)\]\s*%s\s*:" % (STR, k), b, f"clap default of {k}")
+        out.append((k, rust_str(m.group(1))))
+    return out
+
+
+@const("socket_default_packet_size", "Nat", "socket.rs", "const DEFAULT_PACKET_SIZE")
+def _(s):
+    need(r"size\.unwrap_or\(DEFAULT_PACKET_SIZE\)", s, "receive: size.unwrap_or(DEFAULT_PACKET_SIZE)")
+    return rust_int(const_decl(s, "DEFAULT_PACKET_SIZE"))
+
+
+@const("http_max_response_length", "Nat", "http.rs", "const MAX_RESPONSE_LENGTH")
+def _(s):
+    return rust_int(const_decl(s, "MAX_RESPONSE_LENGTH"))
+
+
+def gen_consts():
+    """Gen/Consts.lean: constants and small tables of crates/lib/src.  Returns (items, errors); an item whose source is no
+    longer found in the expected shape is left out of the file (the theorems that use it stop checking) and reported."""
+    items, errors = [], []
+    for name, ty, rel, what, fn in CONST_ITEMS:
+        try:
+            v = fn(csrc(rel) if "{" not in rel and "*" not in rel else None)
+            items.append((name, ty, rel, what, lean_val(v), v))
+        except ConstError as e:
+            errors.append(f"consts: {name} ({rel} :: {what}): {e}")
+        except Exception as e:  # a translator defect must not pass silently either
+            errors.append(f"consts: {name} ({rel} :: {what}): translator error {type(e).__name__}: {e}")
+    L = ["/- GENERATED by tools/xlate.py (gen_consts) from crates/lib/src on every run — do not edit.",
+         "   Constants and small tables of the Rust source; `Props/Cnn_consts.lean` prove that the MODEL (and, where it states the",
+         "   literal itself, the SPEC) uses the same values.  An item the translator no longer finds in the expected shape is",
+         "   left out (and the translator reports it), so the theorems about it stop checking. -/",
+         "namespace Gd.Gen.Consts", ""]
+    for name, ty, rel, what, text, value in items:
+        L.append(f"/-- {rel} :: {what} -/")
+        if len(text) > 100 and text.startswith("[("):
+            text = "[\n   " + ",\n   ".join(lean_val(x) for x in value) + "]"
+        L.append(f"def {name} : {ty} := {text}")
+        L.append("")
+    L += ["/-- names of the items above, in order -/", "def itemNames : List String := [" + ", ".join(lean_val(i[0]) for i in items) + "]", "",
+          "end Gd.Gen.Consts", ""]
+    write_if_changed(os.path.join(GEN, "Consts.lean"), "\n".join(L))
+    import json
+    os.makedirs(os.path.join(V, ".work"), exist_ok=True)
+    json.dump([dict(name=i[0], type=i[1], file=i[2], item=i[3], value=i[5]) for i in items], open(os.path.join(V, ".work", "consts.json"), "w"), indent=1)
+    return items, errors
+
+
 def gen_root():
     """lean/GdVerif.lean imports every module of the project, so that one `lake build GdVerif` checks them together
     (catches name collisions between families)"""
@@ -577,6 +1623,7 @@ def gen_root():
 
 if __name__ == "__main__":
     sites = gen_alloc_sites()
+    consts, const_errors = gen_consts()
     gen_root()
     gen_games()
     vs = gen_views()
@@ -588,3 +1635,11 @@ if __name__ == "__main__":
     if "--list" in sys.argv:
         for s in sites:
             print(site_id(s), *s, sep="\t")
+    if "--consts" in sys.argv:
+        for name, ty, rel, what, text, _ in consts:
+            print(f"{name}\t{ty}\t{rel} :: {what}\t{text}")
+    if const_errors:
+        # everything else has been regenerated; the run as a whole fails, naming every item that was not found
+        for e in const_errors:
+            print("xlate: " + e, file=sys.stderr)
+        sys.exit(1)
